@@ -49,6 +49,9 @@ def _convert(stmts, mk):
         if isinstance(st, ast.Return):
             out += mk(st.value)
             return out, True
+        if isinstance(st, ast.Raise):
+            out.append(st)          # no fall-through either: nothing is returned after it
+            return out, True
         if isinstance(st, ast.If) and _contains_return(st):
             rest = stmts[idx + 1:]
             b, bt = _convert(st.body, mk)
@@ -71,6 +74,34 @@ def _convert(stmts, mk):
             if bt and ot:
                 return out, True
             continue
+        if isinstance(st, (ast.Try, ast.With)) and _contains_return(st) and idx == len(stmts) - 1:
+            # tail position: the statement is the end of the helper, so `return E` inside it becomes mk(E) in place
+            if isinstance(st, ast.With):
+                b, bt = _convert(st.body, mk)
+                new = ast.With(items=st.items, body=(b if bt else b + mk(None)) or [ast.Pass()])
+                ast.copy_location(new, st)
+                out.append(new)
+                return out, True
+            if any(_contains_return(x) for x in st.finalbody):
+                raise _Unsupported("return inside finally")
+            b, bt = _convert(st.body, mk)
+            o, ot = _convert(st.orelse, mk) if st.orelse else ([], False)
+            hs = []
+            for h in st.handlers:
+                hb, ht = _convert(h.body, mk)
+                nh = ast.ExceptHandler(type=h.type, name=h.name, body=(hb if ht else hb + mk(None)) or [ast.Pass()])
+                ast.copy_location(nh, h)
+                hs.append(nh)
+            if st.orelse:
+                body2, orelse2 = b, (o if ot else o + mk(None))
+                if bt:
+                    orelse2 = []
+            else:
+                body2, orelse2 = (b if bt else b + mk(None)), []
+            new = ast.Try(body=body2 or [ast.Pass()], handlers=hs, orelse=orelse2, finalbody=st.finalbody)
+            ast.copy_location(new, st)
+            out.append(new)
+            return out, True
         if _contains_return(st):
             raise _Unsupported("return inside %s" % type(st).__name__)
         out.append(st)
@@ -103,12 +134,12 @@ class _Subst(ast.NodeTransformer):
 
 
 def _simple(e):
-    """argument expressions that may be substituted textually (no side effect, cheap)"""
+    """argument expressions that may be substituted textually (no side effect, cheap): names, literals, attribute chains"""
     if isinstance(e, (ast.Name, ast.Constant)):
         return True
+    if isinstance(e, ast.UnaryOp) and isinstance(e.op, ast.USub) and isinstance(e.operand, ast.Constant):
+        return True
     if isinstance(e, ast.Attribute):
-        return _simple(e.value)
-    if isinstance(e, ast.Subscript) and isinstance(e.slice, ast.Constant):
         return _simple(e.value)
     return False
 
@@ -229,7 +260,42 @@ class _Inliner(object):
         calls = [n for n in ast.walk(st) if isinstance(n, ast.Call) and self._match(n, cls)[0] is not None]
         if not calls or isinstance(st, (ast.FunctionDef, ast.ClassDef)):
             return None
-        if isinstance(st, (ast.If, ast.While, ast.For, ast.With, ast.Try)):
+        if isinstance(st, ast.If):
+            # a helper used as predicate in the test: hoist `tmp = h(...)` before the if (evaluated exactly once, first)
+            tcalls = [n for n in ast.walk(st.test) if isinstance(n, ast.Call) and self._match(n, cls)[0] is not None]
+            if not tcalls or (isinstance(st.test, ast.BoolOp) and not any(n is st.test.values[0] or n in list(ast.walk(st.test.values[0])) for n in tcalls[:1])):
+                return None
+            call = tcalls[0]
+            key, takes_self = self._match(call, cls)
+            fn = self.helpers[key]
+            hb = [b for b in fn.body if not (isinstance(b, ast.Expr) and isinstance(b.value, ast.Constant))]
+            if hb and isinstance(hb[-1], ast.Return) and not any(_contains_return(b) for b in hb[:-1]) and \
+                    not any(isinstance(b, (ast.If, ast.For, ast.While, ast.Try, ast.With)) for b in hb[:-1]):
+                # straight-line predicate: its statements run before the `if`, its result expression becomes (part of) the test,
+                # so the short-circuit structure of the condition stays visible to the path rules
+                holder = {}
+
+                def mk(v):
+                    holder["v"] = v if v is not None else ast.Constant(None)
+                    return []
+                try:
+                    pre = self._expand(key, call, takes_self, mk)
+                except _Unsupported:
+                    self.left[key] = self.left.get(key, 0) + 1
+                    return None
+                new_if = _Replace(call, holder["v"]).visit(st)
+                ast.fix_missing_locations(new_if)
+                self.expanded[key] = self.expanded.get(key, 0) + 1
+                return pre + [new_if]
+            self.counter += 1
+            tmp = "_h%d_test" % self.counter
+            hoist = ast.Assign(targets=[ast.Name(id=tmp, ctx=ast.Store())], value=call)
+            ast.copy_location(hoist, st)
+            new_if = _Replace(call, ast.Name(id=tmp, ctx=ast.Load())).visit(st)
+            ast.fix_missing_locations(hoist)
+            ast.fix_missing_locations(new_if)
+            return [hoist, new_if]
+        if isinstance(st, (ast.While, ast.For, ast.With, ast.Try)):
             return None       # compound: handled through their bodies; calls in their headers are left alone
         call = calls[0]
         key, takes_self = self._match(call, cls)
@@ -255,6 +321,12 @@ class _Inliner(object):
                     ast.copy_location(r, st)
                     return [r]
                 out = self._expand(key, call, takes_self, mk, keep_returns=True)
+            elif isinstance(st, ast.Raise) and st.exc is call and st.cause is None:
+                def mk(v):
+                    r = ast.Raise(exc=v if v is not None else ast.Constant(None), cause=None)
+                    ast.copy_location(r, st)
+                    return [r]
+                out = self._expand(key, call, takes_self, mk)
             elif isinstance(st, ast.Expr) and st.value is call:
                 def mk(v):
                     if v is None:
@@ -277,6 +349,19 @@ class _Inliner(object):
                 body = [b for b in fn.body if not (isinstance(b, ast.Expr) and isinstance(b.value, ast.Constant))]
                 if not body or not isinstance(body[-1], ast.Return) or any(_contains_return(b) for b in body[:-1]) or \
                         any(isinstance(b, (ast.If, ast.For, ast.While, ast.Try, ast.With)) for b in body[:-1]):
+                    # not straight-line: hoist `tmp = h(...)` before the statement (arguments are evaluated before the
+                    # enclosing call anyway); the assignment is expanded on the next pass
+                    if isinstance(st, (ast.Assign, ast.Expr, ast.Return, ast.AugAssign)) and not any(
+                            isinstance(x, (ast.BoolOp, ast.IfExp, ast.Lambda, ast.ListComp, ast.GeneratorExp, ast.DictComp, ast.SetComp))
+                            and any(y is call for y in ast.walk(x)) for x in ast.walk(st)):
+                        self.counter += 1
+                        tmp = "_h%d_arg" % self.counter
+                        hoist = ast.Assign(targets=[ast.Name(id=tmp, ctx=ast.Store())], value=call)
+                        ast.copy_location(hoist, st)
+                        ast.fix_missing_locations(hoist)
+                        new_st = _Replace(call, ast.Name(id=tmp, ctx=ast.Load())).visit(st)
+                        ast.fix_missing_locations(new_st)
+                        return [hoist, new_st]
                     raise _Unsupported("nested call of a non straight-line helper")
                 holder = {}
 
@@ -368,8 +453,163 @@ class _Replace(ast.NodeTransformer):
         return node
 
 
+# ---------------------------------------------------------------------------
+# selected callables:  `if c: f, a = F1, (x, y)  else: f, a = F2, (x, y, z)`  ...  `f(*a)`
+# ---------------------------------------------------------------------------
+def _names_stored(stmts):
+    out = set()
+    for st in stmts:
+        for n in ast.walk(st):
+            if isinstance(n, ast.Name) and isinstance(n.ctx, (ast.Store, ast.Del)):
+                out.add(n.id)
+            elif isinstance(n, ast.ExceptHandler) and n.name:
+                out.add(n.name)
+    return out
+
+
+class _SelSubst(ast.NodeTransformer):
+    """replace the selected names by the expressions of one branch; `*a` by the elements of a's tuple display"""
+
+    def __init__(self, mapping):
+        self.mapping = mapping
+
+    def visit_Name(self, node):
+        if isinstance(node.ctx, ast.Load) and node.id in self.mapping:
+            return copy.deepcopy(self.mapping[node.id])
+        return node
+
+    def visit_Call(self, node):
+        args = []
+        for a in node.args:
+            if isinstance(a, ast.Starred) and isinstance(a.value, ast.Name) and a.value.id in self.mapping and \
+                    isinstance(self.mapping[a.value.id], ast.Tuple):
+                args.extend(copy.deepcopy(x) for x in self.mapping[a.value.id].elts)
+            else:
+                args.append(self.visit(a))
+        node.args = args
+        node.func = self.visit(node.func)
+        node.keywords = [ast.keyword(arg=k.arg, value=self.visit(k.value)) for k in node.keywords]
+        return node
+
+
+def _selection(st):
+    """-> (names, [exprs of the true branch], [exprs of the false branch]) for an if/else that only selects a tuple"""
+    if not (isinstance(st, ast.If) and len(st.body) == 1 and len(st.orelse) == 1):
+        return None
+    a, b = st.body[0], st.orelse[0]
+    for x in (a, b):
+        if not (isinstance(x, ast.Assign) and len(x.targets) == 1 and isinstance(x.targets[0], ast.Tuple) and
+                isinstance(x.value, ast.Tuple) and len(x.value.elts) == len(x.targets[0].elts) and
+                all(isinstance(t, ast.Name) for t in x.targets[0].elts)):
+            return None
+    names = [t.id for t in a.targets[0].elts]
+    if names != [t.id for t in b.targets[0].elts] or len(names) < 2:
+        return None
+
+    def plain(e):
+        return _simple(e) or (isinstance(e, ast.Tuple) and all(_simple(x) for x in e.elts))
+    if not all(plain(e) for e in a.value.elts + b.value.elts):
+        return None
+    return names, a.value.elts, b.value.elts
+
+
+def _uses_selected_call(st, names):
+    for n in ast.walk(st):
+        if isinstance(n, ast.Call):
+            if isinstance(n.func, ast.Name) and n.func.id in names:
+                return True
+            if any(isinstance(a, ast.Starred) and isinstance(a.value, ast.Name) and a.value.id in names for a in n.args):
+                return True
+    return False
+
+
+def _deselect_block(body, fn_node, counter):
+    changed = False
+    i = 0
+    while i < len(body):
+        st = body[i]
+        sel = _selection(st)
+        if sel is not None:
+            names, ea, eb = sel
+            rest = body[i + 1:]
+            free = set()
+            for e in ea + eb:
+                for n in ast.walk(e):
+                    if isinstance(n, ast.Name):
+                        free.add(n.id)
+            stored_later = _names_stored(rest)
+            stored_all = [n for n in ast.walk(fn_node) if isinstance(n, ast.Name) and isinstance(n.ctx, ast.Store) and n.id in names]
+            users = [k for k, r in enumerate(rest) if _uses_selected_call(r, names)]
+            # sound only if the selected names are bound nowhere else and nothing they are built from is rebound afterwards
+            if users and len(stored_all) == 2 * len(names) and not (free & stored_later) and not (set(names) & stored_later):
+                counter[0] += 1
+                flag = "_sel%d" % counter[0]
+                assign = ast.Assign(targets=[ast.Name(id=flag, ctx=ast.Store())],
+                                    value=ast.Call(func=ast.Name(id="bool", ctx=ast.Load()), args=[st.test], keywords=[]))
+                ast.copy_location(assign, st)
+                st.test = ast.Name(id=flag, ctx=ast.Load())
+                ast.copy_location(st.test, st)
+                new_rest = []
+                for r in rest:
+                    if _uses_selected_call(r, names):
+                        ra = _SelSubst(dict(zip(names, ea))).visit(copy.deepcopy(r))
+                        rb = _SelSubst(dict(zip(names, eb))).visit(copy.deepcopy(r))
+                        both = ast.If(test=ast.Name(id=flag, ctx=ast.Load()), body=[ra], orelse=[rb])
+                        ast.copy_location(both, r)
+                        ast.copy_location(both.test, r)
+                        new_rest.append(both)
+                    else:
+                        new_rest.append(r)
+                body[i:] = [assign, st] + new_rest
+                ast.fix_missing_locations(fn_node)
+                changed = True
+                i += 2
+                continue
+        for field in ("body", "orelse", "finalbody"):
+            sub = getattr(st, field, None)
+            if isinstance(sub, list) and sub and not isinstance(st, (ast.FunctionDef, ast.ClassDef)):
+                changed = _deselect_block(sub, fn_node, counter) or changed
+        if isinstance(st, ast.Try):
+            for h in st.handlers:
+                changed = _deselect_block(h.body, fn_node, counter) or changed
+        i += 1
+    return changed
+
+
+class _ReturnIfExp(ast.NodeTransformer):
+    """`return A if c else B`  ->  `if c: return A` / `else: return B` (the paths become visible to the CFG rules)"""
+
+    def __init__(self):
+        self.count = 0
+
+    def visit_Return(self, node):
+        if isinstance(node.value, ast.IfExp):
+            self.count += 1
+            a = ast.copy_location(ast.Return(value=node.value.body), node)
+            b = ast.copy_location(ast.Return(value=node.value.orelse), node)
+            new = ast.copy_location(ast.If(test=node.value.test, body=[self.visit_Return(a)], orelse=[self.visit_Return(b)]), node)
+            return new
+        return node
+
+    def visit_Lambda(self, node):
+        return node
+
+
+def deselect_module(tree):
+    """Rewrite calls through a (callable, arguments) pair chosen by an if/else into the two direct calls (in place)."""
+    n = 0
+    counter = [0]
+    _ReturnIfExp().visit(tree)
+    for st in ast.walk(tree):
+        if isinstance(st, ast.FunctionDef):
+            if _deselect_block(st.body, st, counter):
+                n += 1
+    return n
+
+
 def inline_module(module_name, tree):
     """Expand new same-module helpers in `tree` (in place).  -> dict(expanded=..., removed=...) for evidence."""
+    deselect_module(tree)
     known = known_functions().get(module_name, set())
     inl = _Inliner(module_name, tree, known)
     did = inl.run()
